@@ -70,7 +70,7 @@ def live_phase(ctx):
                           kind="purge-history"))
     mism += pm
     sf = []
-    c05_live.straddle_phase(ctx, orc, sf, dist)
+    mism += c05_live.straddle_phase(ctx, orc, sf, dist) or []
     for f in sf:
         fails.append(dict(f, why="replay memory shorter than the time the credential can still pass the time check: " + f["why"]))
     queued_across_expiry(ctx, orc, fails, dist)
@@ -80,7 +80,8 @@ def live_phase(ctx):
         if f["kind"] in seen:
             continue
         seen.add(f["kind"])
-        ctx.violation(f["why"], f, found_input=True)
+        ctx.violation(f["why"] + ("" if getattr(ctx, "proof_ok", True) else "  [and the proof obligation no longer checks: %s]"
+                                  % getattr(ctx, "broken_obligation", "?")), f, found_input=True)
     if mism and not fails:
         ctx.violation("model and daemon disagree in the C07 live phase on %d cases (first: %s)" % (len(mism), mism[0]["diff"]),
                       {"obligation": "correspondence CredModel ~ munged (C07 live)", "first": mism[0]}, found_input=False)
@@ -154,7 +155,7 @@ def queued_across_expiry(ctx, orc, fails, dist):
 
 def run(ctx):
     ctx.level = "proof"
-    proved = vlib.prove(ctx, ["Properties_C07.v", "Properties_C07_pipeline.v"], facts=["replay", "cred", "base64"])
+    proved = vlib.prove(ctx, ["Properties_C07.v", "Properties_C07_pipeline.v"], facts=["replay", "cred", "base64", "cfun"])
     ctx.log("proofs:", "ok" if proved else "BROKEN: " + getattr(ctx, "broken_obligation", "?"))
     ctx.cov["rule"] = ("proof: Properties_C07.v over ReplayModel (facts from replay.c); correspondence: the same histories "
                        "through /repo's replay.c+hash.c (virtual clock via --wrap=time, purge through the registered timer "
